@@ -28,6 +28,9 @@ Failed(r) ==
                        Len(e.later) = 64 + Len(e.plain)
                        /\ SubSeq(e.later, 1, 64) = PacketHeader(IF e.frm = "A" THEN ka.enc ELSE kb.enc, e.plain))
        \cup Clause("decrypts_back", \A i \in 1..Len(r.events) : r.events[i].dec = r.events[i].plain)
+       \* decrypting reads the received datagram: the receiver's buffer is unchanged and a second delivery decrypts alike
+       \cup Clause("decrypt_altered_the_received_packet", \A i \in 1..Len(r.events) : r.events[i].buf_after = r.events[i].now)
+       \cup Clause("second_delivery_decrypts_differently", \A i \in 1..Len(r.events) : r.events[i].dec2 = r.events[i].plain)
       [] r.op = "sig" -> Clause("verify_iff_genuine", r.verified = r.genuine) \cup Clause("signature_is_64_bytes", r.siglen = 64)
       [] r.op = "mnemonic_rule" -> Clause("mnemonic_validity_follows_the_seed_rule", r.libvalid = r.rule)
       [] r.op = "derive" ->
